@@ -13,7 +13,7 @@ use super::sendbody::{send_body_call, send_body_flow};
 use crate::engine::{explore, pattern, validate_traces, Limits, Report, Sys, Tier, Violation};
 use crate::refmodel::chunked::decode_strict;
 
-pub const RULE: &str = "explicit-state search over the real chunked body writer (Flow::<SendBody> of a POST, Flow::<SendBody> of a GET with send-body-despite-method and no framing header, Flow::<SendBody> of a POST carrying transfer-encoding: chunked AND content-length: 0, Call::<WithBody>, and both front ends for a POST that carries its own Host and Transfer-Encoding headers so that the analysis amends nothing; a POST flow whose caller made two superfluous head writes before entering SendBody): from EVERY reachable state (key = full fingerprint + terminators emitted so far) every write(input[..i], out[..b]) of the grid i in 0..=48 u {255..257,4095..4097,10239..10241,10245,10246,10253,10254,20480,20481,30730} x b in 0..=64 u 4090..=4110 u 10240..=10270 u 20488..=20520 (thorough: i in 0..=300, b in 0..=320 in addition); so all sequences of such calls incl. finishing writes anywhere and repeated are covered. distinct = distinct (state, input class, chunks emitted, terminator emitted) transition classes";
+pub const RULE: &str = "explicit-state search over the real chunked body writer (Flow::<SendBody> of a POST, Flow::<SendBody> of a GET with send-body-despite-method and no framing header, Flow::<SendBody> of a POST carrying transfer-encoding: chunked AND content-length: 0, Call::<WithBody>, and both front ends for a POST that carries its own Host and Transfer-Encoding headers so that the analysis amends nothing; a POST flow whose caller made two superfluous head writes before entering SendBody): from EVERY reachable state (key = full fingerprint + terminators emitted so far) every write(input[..i], out[..b]) of the grid i in 0..=48 u {255..257,4095..4097,10239..10241,10245,10246,10253,10254,20480,20481,30730} x b in 0..=64 u 4090..=4110 u 10240..=10270 u 20488..=20520 (thorough: i in 0..=300, b in 0..=320 in addition); and consume_direct_write(k), k in {0,1,5}, which must leave a chunked body exactly as it was; so all sequences of such calls incl. finishing writes anywhere and repeated are covered. distinct = distinct (state, input class, chunks emitted, terminator emitted) transition classes";
 
 #[derive(Clone)]
 enum W {
@@ -88,6 +88,13 @@ impl Sys for St {
                 v.push((i, b));
             }
         }
+        // a direct-write report (the caller wrote body bytes to the transport itself) makes no sense for a
+        // chunked body: it must be refused and change nothing - encoded as input length usize::MAX
+        if matches!(self.w, W::Flow(_)) {
+            for k in [0usize, 1, 5] {
+                v.push((usize::MAX, k));
+            }
+        }
         v
     }
 
@@ -111,6 +118,16 @@ impl Sys for St {
         let key = |k: &str| format!("C03:{}:{}", front, k);
         let was_finished = self.finished();
         let fp_before = self.fp();
+        if i == usize::MAX {
+            if let W::Flow(f) = &mut self.w {
+                // refused or ignored - either way the chunked writer must be exactly as before
+                let r = f.consume_direct_write(b);
+                if self.fp() != fp_before || self.finished() != was_finished {
+                    return Err((key("direct-write-side-effect"), format!("consume_direct_write({}) on a chunked body ({}) changed the writer (finished {} -> {})", b, if r.is_ok() { "accepted" } else { "refused" }, was_finished, self.finished())));
+                }
+            }
+            return Ok(());
+        }
         let mut out = vec![0xAAu8; b];
         let input = &self.grid.input[..i];
         let r = match &mut self.w {
